@@ -100,15 +100,22 @@ def make_domain(name):
     raise ValueError(name)
 
 
-def make_sampler(spec, shared_domains=None):
+def make_x_sampler(sx, shared_domains=None):
     import torchphysics as tp
     S = tp.samplers
-    sx = spec["x"]
     dom = (shared_domains or {}).get(sx["dom"]) or make_domain(sx["dom"])
     if sx["dom"] == "pdisc":
         dom = dom(a=float(sx.get("a", 0.0)))       # partial evaluation of the (possibly shared) domain
     cls = {"random": S.RandomUniformSampler, "grid": S.GridSampler, "lhs": S.LHSSampler}[sx["kind"]]
-    s = cls(dom, n_points=sx["n"])
+    return cls(dom, n_points=sx["n"])
+
+
+def make_sampler(spec, shared_domains=None, shared_x=None):
+    import torchphysics as tp
+    S = tp.samplers
+    sx = spec["x"]
+    # shared_x: ONE non-static sampler object over x handed to several conditions (alone, or as a factor of a product)
+    s = shared_x if (shared_x is not None and spec.get("share_x")) else make_x_sampler(sx, shared_domains)
     if spec.get("t"):
         st = spec["t"]
         T = tp.domains.Interval(tp.spaces.R1("t"), 0.0, 2.0)
@@ -237,13 +244,15 @@ def build_condition(cs, shared=None):
         dom = (shared.get("domains") or {}).get(sx["dom"]) or make_domain(sx["dom"])
         cls = {"random": tp.samplers.RandomUniformSampler, "grid": tp.samplers.GridSampler, "lhs": tp.samplers.LHSSampler}[sx["kind"]]
         nps = cls(dom, n_points=sx["n"])
+        if cs["sampler"].get("share_x") and shared.get("sampler_x") is not None:
+            nps = shared["sampler_x"]
         if cs["sampler"].get("static") == "inf":
             nps = nps.make_static()
         record_sampler(nps, samples)
         b["sampler"] = nps
         b["cond"] = tp.conditions.PeriodicCondition(model, T, probe.fn, non_periodic_sampler=nps, **kw)
         return b
-    smp = shared.get("sampler") or make_sampler(cs["sampler"], shared.get("domains"))
+    smp = shared.get("sampler") or make_sampler(cs["sampler"], shared.get("domains"), shared.get("sampler_x"))
     record_sampler(smp, samples)
     b["sampler"] = smp
     if kind == "integro":
@@ -512,6 +521,9 @@ def run_c14(case):
                 behaviour_before = behaviour(shared["data_dict"])
             if sharing.get("domains"):
                 shared["domains"] = {n: make_domain(n) for n in ("square", "disc", "ring", "bsquare", "pdisc")}
+            if sharing.get("sampler_x"):
+                first_x = next(cs["sampler"]["x"] for cs in specs if (cs.get("sampler") or {}).get("share_x"))
+                shared["sampler_x"] = make_x_sampler(first_x, shared.get("domains"))
             user_dict_before = dict(shared["data_dict"]) if "data_dict" in shared else None
             builds = {}
             solo = {}
